@@ -10,11 +10,13 @@ Open Scope N_scope.
 Inductive rerr := ESpi | EBusy | EInvalidConfiguration | EInvalidRadioMode | EInvalidSyncWord | EOpError (s : N)
   | EInvalidBaseAddress (a b : N) | EPayloadSizeUnexpected (n : N) | EPayloadSizeMismatch (a b : N)
   | EUnavailableSF | EUnavailableBW | EInvalidBwForFreq | EInvalidSF6Explicit | EInvalidPowerForFreq
-  | ETransmitTimeout | EReceiveTimeout | EDutyCycleUnsupported | ERngUnsupported | EPanic.
+  | ETransmitTimeout | EReceiveTimeout | EDutyCycleUnsupported | ERngUnsupported | EPanic
+  | ECancelled (* not an error value: the future was dropped at a pending await_irq *).
 
 Inductive seg := W (bytes : list N) | R (n : nat).
 Inductive ivcall := IvReset | IvBusy | IvIrq | IvSwRx | IvSwTx | IvSwOff.
-Inductive act := Spi (segs : list seg) | Iv (c : ivcall) | DelayNs (ns : N).
+(* St / Ld: the driver object's own fields (they survive a failed or cancelled operation) *)
+Inductive act := Spi (segs : list seg) | Iv (c : ivcall) | DelayNs (ns : N) | St (tag : nat) (v : list N) | Ld (tag : nat).
 
 (* a driver operation: a tree of actions, each continued with the bytes read by that action (concatenated over its R segments),
    or -- when the action fails at the pins (SPI error, busy/IRQ line error) -- with the error (`?` propagates it by default) *)
@@ -36,6 +38,7 @@ Notation "p ;;; q" := (bind p (fun _ => q)) (at level 61, right associativity).
 Fixpoint attempt {A} (p : prog A) : prog (A + rerr) :=
   match p with
   | Ret a => Ret (inl a)
+  | Fail EPanic => Fail EPanic        (* a panic unwinds through everything *)
   | Fail e => Ret (inr e)
   | Do a k h => Do a (fun r => attempt (k r)) (fun e => attempt (h e))
   end.
@@ -63,7 +66,12 @@ Record chip := {
   c_buf : list N;          (* 256-byte data buffer / FIFO *)
   c_fifo : N;
   c_events : N;
-  c_fault : option N }.
+  c_fault : option N;
+  c_drv : list (list N);                 (* driver-object fields by tag *)
+  c_irq_calls : N;
+  c_irq_budget : N;                      (* interrupt edges the chip still raises *)
+  c_pend : option N;                     (* the await_irq call (by index) that never completes *)
+  c_on_irq : list (N * list N) }.        (* interrupt outcomes: status flags (+ bytes answered afterwards, SX126x) *)
 
 Fixpoint set_nthN (l : list N) (i : nat) (v : N) : list N :=
   match l, i with
@@ -76,18 +84,18 @@ Definition next_read (c : chip) : N * chip :=
   match c_reads c with
   | [] => (c_fill c, c)
   | x :: r => (x, {| c_kind := c_kind c; c_regs := c_regs c; c_reads := r; c_fill := c_fill c; c_buf := c_buf c; c_fifo := c_fifo c;
-                    c_events := c_events c; c_fault := c_fault c |})
+                    c_events := c_events c; c_fault := c_fault c ; c_drv := c_drv c; c_irq_calls := c_irq_calls c; c_irq_budget := c_irq_budget c; c_pend := c_pend c; c_on_irq := c_on_irq c |})
   end.
 Definition with_fifo (c : chip) (p : N) : chip :=
   {| c_kind := c_kind c; c_regs := c_regs c; c_reads := c_reads c; c_fill := c_fill c; c_buf := c_buf c; c_fifo := p;
-     c_events := c_events c; c_fault := c_fault c |}.
+     c_events := c_events c; c_fault := c_fault c ; c_drv := c_drv c; c_irq_calls := c_irq_calls c; c_irq_budget := c_irq_budget c; c_pend := c_pend c; c_on_irq := c_on_irq c |}.
 Definition with_regs (c : chip) (r : list N) : chip :=
   {| c_kind := c_kind c; c_regs := r; c_reads := c_reads c; c_fill := c_fill c; c_buf := c_buf c; c_fifo := c_fifo c;
-     c_events := c_events c; c_fault := c_fault c |}.
+     c_events := c_events c; c_fault := c_fault c ; c_drv := c_drv c; c_irq_calls := c_irq_calls c; c_irq_budget := c_irq_budget c; c_pend := c_pend c; c_on_irq := c_on_irq c |}.
 Definition tick (c : chip) : bool * chip :=
   (match c_fault c with Some k => k =? c_events c | None => false end,
    {| c_kind := c_kind c; c_regs := c_regs c; c_reads := c_reads c; c_fill := c_fill c; c_buf := c_buf c; c_fifo := c_fifo c;
-      c_events := c_events c + 1; c_fault := c_fault c |}).
+      c_events := c_events c + 1; c_fault := c_fault c ; c_drv := c_drv c; c_irq_calls := c_irq_calls c; c_irq_budget := c_irq_budget c; c_pend := c_pend c; c_on_irq := c_on_irq c |}).
 
 (* one byte read inside a transaction: `written` = all bytes written so far in it, idx = bytes read so far *)
 Definition read_byte (c : chip) (written : list N) (idx : nat) : N * chip :=
@@ -119,7 +127,7 @@ Fixpoint write_regs (regs : list N) (a : nat) (vals : list N) (wrap : nat) : lis
 
 (* trace of a transaction as the mock prints it: w<hex>, r<hex of data> joined by ',' -- kept structured here *)
 Inductive tseg := TW (bytes : list N) | TR (data : list N).
-Inductive tev := TSpi (segs : list tseg) | TSpiFault | TIv (c : ivcall) | TIvFault (c : ivcall) | TDelay (ns : N).
+Inductive tev := TSpi (segs : list tseg) | TSpiFault | TIv (c : ivcall) | TIvFault (c : ivcall) | TDelay (ns : N) | TIrqPending.
 
 Fixpoint run_segs (c : chip) (segs : list seg) (written : list N) (idx : nat) (acc : list tseg) (got : list N)
   : chip * list N * list tseg * list N :=
@@ -143,11 +151,42 @@ Definition side_effects (c : chip) (written : list N) : chip :=
         (* FIFO write at the address pointer *)
         let '(buf', ptr') := fold_left (fun bp v => let '(b, p) := bp in (set_nthN b (N.to_nat p) v, (p + 1) mod 256)) (skipn 1 written) (c_buf c1, c_fifo c1) in
         {| c_kind := c_kind c1; c_regs := c_regs c1; c_reads := c_reads c1; c_fill := c_fill c1; c_buf := buf'; c_fifo := ptr';
-           c_events := c_events c1; c_fault := c_fault c1 |}
+           c_events := c_events c1; c_fault := c_fault c1 ; c_drv := c_drv c1; c_irq_calls := c_irq_calls c1; c_irq_budget := c_irq_budget c1; c_pend := c_pend c1; c_on_irq := c_on_irq c1 |}
       else if a =? 0x12 then     (* RegIrqFlags: writing a 1 clears the flag *)
         with_regs c1 (set_nthN (c_regs c1) 0x12 (N.land (nthN (c_regs c1) 0x12) (N.lxor 255 (nthN written 1 mod 256))))
       else with_regs c1 (write_regs (c_regs c1) (N.to_nat a) (skipn 1 written) 4096)
     else c
+  end.
+
+Fixpoint set_nth_list (l : list (list N)) (i : nat) (v : list N) : list (list N) :=
+  match l, i with
+  | [], O => [v]
+  | [], S k => [] :: set_nth_list [] k v
+  | _ :: r, O => v :: r
+  | x :: r, S k => x :: set_nth_list r k v
+  end.
+Definition with_drv (c : chip) (d : list (list N)) : chip :=
+  {| c_kind := c_kind c; c_regs := c_regs c; c_reads := c_reads c; c_fill := c_fill c; c_buf := c_buf c; c_fifo := c_fifo c;
+     c_events := c_events c; c_fault := c_fault c; c_drv := d; c_irq_calls := c_irq_calls c; c_irq_budget := c_irq_budget c;
+     c_pend := c_pend c; c_on_irq := c_on_irq c |}.
+Definition with_irq (c : chip) (calls budget : N) : chip :=
+  {| c_kind := c_kind c; c_regs := c_regs c; c_reads := c_reads c; c_fill := c_fill c; c_buf := c_buf c; c_fifo := c_fifo c;
+     c_events := c_events c; c_fault := c_fault c; c_drv := c_drv c; c_irq_calls := calls; c_irq_budget := budget;
+     c_pend := c_pend c; c_on_irq := c_on_irq c |}.
+(* the next scripted interrupt outcome becomes the chip's IRQ status *)
+Definition apply_on_irq (c : chip) : chip :=
+  match c_on_irq c with
+  | [] => c
+  | (v, extra) :: rest =>
+    let c1 := {| c_kind := c_kind c; c_regs := c_regs c; c_reads := c_reads c; c_fill := c_fill c; c_buf := c_buf c; c_fifo := c_fifo c;
+                 c_events := c_events c; c_fault := c_fault c; c_drv := c_drv c; c_irq_calls := c_irq_calls c; c_irq_budget := c_irq_budget c;
+                 c_pend := c_pend c; c_on_irq := rest |} in
+    match c_kind c with
+    | K127 => with_regs c1 (set_nthN (c_regs c1) 0x12 (v mod 256))
+    | K126 => {| c_kind := c_kind c1; c_regs := c_regs c1; c_reads := [0; (v / 256) mod 256; v mod 256] ++ extra; c_fill := c_fill c1; c_buf := c_buf c1;
+                 c_fifo := c_fifo c1; c_events := c_events c1; c_fault := c_fault c1; c_drv := c_drv c1; c_irq_calls := c_irq_calls c1;
+                 c_irq_budget := c_irq_budget c1; c_pend := c_pend c1; c_on_irq := c_on_irq c1 |}
+    end
   end.
 
 (* run a program; fuel bounds the number of actions (every driver operation is finite) *)
@@ -163,9 +202,20 @@ Fixpoint run {A} (fuel : nat) (c : chip) (p : prog A) (tr : list tev) : chip * l
       if flt then run f c1 (h ESpi) (TSpiFault :: tr) else
       let '(c2, written, tsegs, got) := run_segs c1 segs [] 0 [] [] in
       run f (side_effects c2 written) (k got) (TSpi tsegs :: tr)
+    | Do (Iv IvIrq) k h =>
+      (* await_irq: pending (the caller's future is dropped) when this call is the scripted pending one or no edge is left *)
+      let n := c_irq_calls c in
+      let exhausted := c_irq_budget c =? 0 in
+      let c0 := with_irq c (n + 1) (if exhausted then 0 else c_irq_budget c - 1) in
+      if (match c_pend c with Some k0 => k0 =? n | None => false end) || exhausted then (c0, rev (TIrqPending :: tr), Some (inr ECancelled)) else
+      let c0' := apply_on_irq c0 in
+      let '(flt, c1) := tick c0' in
+      if flt then run f c1 (h EBusy) (TIvFault IvIrq :: tr) else run f c1 (k []) (TIv IvIrq :: tr)
     | Do (Iv call) k h =>
       let '(flt, c1) := tick c in
       if flt then run f c1 (h EBusy) (TIvFault call :: tr) else run f c1 (k []) (TIv call :: tr)
     | Do (DelayNs ns) k _ => run f c (k []) (TDelay ns :: tr)
+    | Do (St tag v) k _ => run f (with_drv c (set_nth_list (c_drv c) tag v)) (k []) tr
+    | Do (Ld tag) k _ => run f c (k (nth tag (c_drv c) [])) tr
     end
   end.
